@@ -205,6 +205,7 @@ func (c *encCtx) exprKey(e ast.Expr) string {
 
 // collectLocals records every definition expression of each local variable in the function.
 func (c *encCtx) collectLocals(body *ast.BlockStmt) {
+	defer c.aliasBuffers(body)
 	ast.Inspect(body, func(n ast.Node) bool {
 		switch x := n.(type) {
 		case *ast.AssignStmt:
@@ -1591,4 +1592,34 @@ func (l *linForm) String() string {
 		parts = append(parts, "?"+o)
 	}
 	return strings.Join(parts, " + ")
+}
+
+// aliasBuffers: a local []byte defined as a (re-)slice of a tracked buffer is the same buffer under another name
+// (record := w.msg[:n]; covered, crcField := record[:n-4], record[n-4:]).
+func (c *encCtx) aliasBuffers(body *ast.BlockStmt) {
+	for pass := 0; pass < 3; pass++ {
+		ast.Inspect(body, func(n ast.Node) bool {
+			as, ok := n.(*ast.AssignStmt)
+			if !ok || as.Tok != token.DEFINE || len(as.Lhs) != len(as.Rhs) {
+				return true
+			}
+			for i, l := range as.Lhs {
+				id, ok := l.(*ast.Ident)
+				if !ok || id.Name == "_" {
+					continue
+				}
+				if !isByteSliceType(c.g.info.TypeOf(id)) {
+					continue
+				}
+				rhs := stripParenConv(c.g, as.Rhs[i])
+				switch rhs.(type) {
+				case *ast.SliceExpr, *ast.Ident, *ast.SelectorExpr:
+					if c.bufs[bufRoot(rhs)] {
+						c.bufs[id.Name] = true
+					}
+				}
+			}
+			return true
+		})
+	}
 }
